@@ -126,6 +126,28 @@ theorem real_roundtripLL (ql : List (List (List Char)))
     decodeLL Gen.escapeTable decUtf8 (encodeLL Gen.escapeTable ql) = ql :=
   decodeLL_encodeLL _ _ inst_tableOK inst_sepCovered decUtf8_ok ql hne
 
+/-! ### injectivity: two different arguments never share an encoding (so no two different queries share a cache key
+through their arguments) -/
+
+/-- `encode_token` is injective on all texts -/
+theorem real_injective (s t : List Char)
+    (h : encodeToken Gen.escapeTable s = encodeToken Gen.escapeTable t) : s = t := by
+  have := congrArg (decodeToken Gen.escapeTable decUtf8) h
+  simpa [real_roundtrip] using this
+
+/-- the query-level encoder is injective on the queries it can carry -/
+theorem real_injectiveLL (ql ql' : List (List (List Char)))
+    (hne : ∀ cmd ∈ ql, ∃ t ts, cmd = t :: ts ∧ t ≠ [])
+    (hne' : ∀ cmd ∈ ql', ∃ t ts, cmd = t :: ts ∧ t ≠ [])
+    (h : encodeLL Gen.escapeTable ql = encodeLL Gen.escapeTable ql') : ql = ql' := by
+  have := congrArg (decodeLL Gen.escapeTable decUtf8) h
+  rwa [real_roundtripLL ql hne, real_roundtripLL ql' hne'] at this
+
+-- the precondition of `real_injectiveLL` matters: a dropped command makes two queries collide
+/-- info: true -/
+#guard_msgs in
+#eval encodeLL Gen.escapeTable [["a".toList], []] == encodeLL Gen.escapeTable [["a".toList], [[]]]
+
 end Liquer.C03
 
--- OBLIGATIONS: Liquer.C03.inst_tableOK Liquer.C03.inst_sepCovered Liquer.C03.inst_quoteSafe Liquer.C03.decUtf8_ok Liquer.C03.decodeToken_encodeToken Liquer.C03.real_roundtrip Liquer.C03.encodeToken_safe Liquer.C03.encodeToken_no_separator Liquer.C03.encodeToken_blocks Liquer.C03.real_safe Liquer.C03.real_no_separator Liquer.C03.real_blocks Liquer.C03.decodeLL_encodeLL Liquer.C03.real_roundtripLL
+-- OBLIGATIONS: Liquer.C03.inst_tableOK Liquer.C03.inst_sepCovered Liquer.C03.inst_quoteSafe Liquer.C03.decUtf8_ok Liquer.C03.decodeToken_encodeToken Liquer.C03.real_roundtrip Liquer.C03.encodeToken_safe Liquer.C03.encodeToken_no_separator Liquer.C03.encodeToken_blocks Liquer.C03.real_safe Liquer.C03.real_no_separator Liquer.C03.real_blocks Liquer.C03.decodeLL_encodeLL Liquer.C03.real_roundtripLL Liquer.C03.real_injective Liquer.C03.real_injectiveLL
